@@ -123,6 +123,20 @@ Fixpoint index_of_str (s : string) (l : list string) (i : nat) : option nat :=
   end.
 Definition vrule_num (r : vrule) : option nat := index_of_str (vrule_name r) RuleTable.rule_names 0.
 
+(* ================================================================================================ repairs *)
+
+(** The repairs proposed by C04 (fixes/C04-*.diff), each a switch of the model:
+    [fx_reset_set]   addResetOrderMapItem looks for an existing group among the whole connected variable set
+                     (equivalentVariables) instead of the direct equivalents only;
+    [fx_math_qual]   validateMathMLElementsChildrenAndSiblings descends into degree / logbase / bvar;
+    [fx_isrc_once]   buildModelIdMap counts the id of an ImportSource object once, not once per importing entity;
+    [fx_name_pairs]  buildComponentIdMap compares (variable name, component name) pairs and remembers connections by
+                     pairs of component names, instead of comparing / remembering concatenated strings.
+    (fixes/C04-mathml-nonascii-id.diff lives in the DTD pass, which is not modelled.) *)
+Record fixes := mkFx { fx_reset_set : bool; fx_math_qual : bool; fx_isrc_once : bool; fx_name_pairs : bool }.
+Definition unfixed : fixes := mkFx false false false false.
+Definition all_fixed : fixes := mkFx true true true true.
+
 (* ================================================================================================ entities *)
 
 Record unit_item := mkUI { ui_ref : string; ui_prefix : string; ui_exp : Q; ui_lmult : Q (* log10 multiplier *);
@@ -481,13 +495,45 @@ Definition conv_math_rule (r : MathDefs.rule) : vrule :=
 (** the names for which model->hasUnits(name) or isStandardUnitName(name) holds *)
 Definition units_names (m : model) : list string := map u_name (m_units m) ++ map fst standard_units_list.
 
+(** validateMathMLElementsChildrenAndSiblings with the switch [q] (= fx_math_qual): MathDefs.val_struct is the tree as
+    it was; with [q] a degree / logbase / bvar whose own tests all pass has its MathML children validated as well
+    (ValidProofs.val_struct_q_false: with q = false this IS MathDefs.val_struct).  C01's own switch for its proposed
+    arity rules of min / max / rem (MathDefs.arity_fix_committed) is followed as it stands in MathDefs. *)
+Definition qual_class (n : string) : bool :=
+  match vclass_of n with VDegree | VLogbase | VBvar => true | _ => false end.
+Fixpoint val_struct_q (q : bool) (pk : list xml) (idx : nat) (x : xml) {struct x} : list MathDefs.rule :=
+  match x with
+  | Elem ns n attrs kids =>
+      if negb (String.eqb ns MATHML_NS) then [] else
+      let sub := (fix go (ks : list xml) (i : nat) {struct ks} : list MathDefs.rule :=
+                    match ks with
+                    | [] => []
+                    | k :: r => if is_mathml k then val_struct_q q (mkids kids) i k ++ go r (S i) else go r i
+                    end) kids 0 in
+      let r := val_node arity_fix_committed pk idx n attrs kids sub in
+      if q && qual_class n then match r with [] => sub | _ => r end else r
+  | _ => []
+  end.
+Fixpoint val_struct_kids_q (q : bool) (mk : list xml) (ks : list xml) (i : nat) : list MathDefs.rule :=
+  match ks with
+  | [] => []
+  | k :: r => if is_mathml k then val_struct_q q mk i k ++ val_struct_kids_q q mk r (S i) else val_struct_kids_q q mk r i
+  end.
+(** MathDefs.val_math_env with the switch *)
+Definition val_math_env_q (q : bool) (vars units : list string) (root : xml) : list MathDefs.rule :=
+  if negb (is_mathml_el "math" root) then [R_MATH_ELEMENT]
+  else
+    flat_map val_supported (kids_of root)
+    ++ val_cicn vars units root
+    ++ val_struct_kids_q q (mkids (kids_of root)) (kids_of root) 0.
+
 (** validateMath: variableNames = the component's variable names without repetitions (membership is all that is
     read); a root that is not <math> raises MATH_ELEMENT and RETURNS: the roots after it are not looked at *)
-Fixpoint validate_math (vars units : list string) (docs : list xml) : list vrule :=
+Fixpoint validate_math (q : bool) (vars units : list string) (docs : list xml) : list vrule :=
   match docs with
   | [] => []
   | d :: r =>
-      if is_mathml_el "math" d then map conv_math_rule (val_math_env vars units d) ++ validate_math vars units r
+      if is_mathml_el "math" d then map conv_math_rule (val_math_env_q q vars units d) ++ validate_math q vars units r
       else [V_MATH_ELEMENT]
   end.
 
@@ -527,15 +573,15 @@ Definition reset_var_check (L : list vloc) (c : cinfo) (ov : option nat) (r : vr
       end
   end.
 
-Definition validate_reset (m : model) (L : list vloc) (c : cinfo) (r : reset) : list vrule :=
+Definition validate_reset (q : bool) (m : model) (L : list vloc) (c : cinfo) (r : reset) : list vrule :=
   let vars := map v_name (c_vars c) in
   let un := units_names m in
   let '(v_now, v_end) := reset_var_check L c (r_var r) V_RESET_VARIABLE_REFERENCE in
   let '(t_now, t_end) := reset_var_check L c (r_tvar r) V_RESET_TEST_VARIABLE_REFERENCE in
   (if is_xml_name (r_id r) then [] else [V_XML_ID_ATTRIBUTE])
   ++ v_now ++ t_now
-  ++ validate_math vars un (r_tv r)
-  ++ validate_math vars un (r_rv r)
+  ++ validate_math q vars un (r_tv r)
+  ++ validate_math q vars un (r_rv r)
   ++ (if is_xml_name (r_tv_id r) then [] else [V_XML_ID_ATTRIBUTE])
   ++ (if is_xml_name (r_rv_id r) then [] else [V_XML_ID_ATTRIBUTE])
   ++ (match r_order r with None => [V_RESET_ORDER_VALUE] | Some _ => [] end)
@@ -546,7 +592,7 @@ Definition validate_reset (m : model) (L : list vloc) (c : cinfo) (r : reset) : 
   ++ v_end ++ t_end.
 
 (** validateComponent: [mi] = index of owningModel(component) *)
-Fixpoint validate_component (fuel : nat) (W : world) (mi : nat) (hist : list epoch) (c : cinfo) {struct fuel}
+Fixpoint validate_component (q : bool) (fuel : nat) (W : world) (mi : nat) (hist : list epoch) (c : cinfo) {struct fuel}
   : list vrule :=
   match fuel with
   | O => [V_OUT_OF_FUEL]
@@ -567,14 +613,14 @@ Fixpoint validate_component (fuel : nat) (W : world) (mi : nat) (hist : list epo
                     | Some ic =>
                         let h := mkEp (c_name c) (importee_url hist (is_url s)) (is_url s) mi (Some mj) in
                         if import_cycle hist h then [V_IMPORT_COMPONENT_COMPONENT_REFERENCE]
-                        else validate_component f W mj (hist ++ [h]) (c_info ic)
+                        else validate_component q f W mj (hist ++ [h]) (c_info ic)
                     | None => [V_IMPORT_COMPONENT_COMPONENT_REFERENCE_TARGET]
                     end
                 end)
         | None =>
             validate_variables m c [] (c_vars c)
-            ++ flat_map (validate_reset m (model_locs m) c) (c_resets c)
-            ++ validate_math (map v_name (c_vars c)) (units_names m) (c_math c)
+            ++ flat_map (validate_reset q m (model_locs m) c) (c_resets c)
+            ++ validate_math q (map v_name (c_vars c)) (units_names m) (c_math c)
         end)
   end.
 
@@ -583,7 +629,7 @@ Fixpoint validate_component (fuel : nat) (W : world) (mi : nat) (hist : list epo
 Definition unique_name_rule (c : cinfo) : vrule :=
   if is_import_c c then V_IMPORT_COMPONENT_NAME_UNIQUE else V_COMPONENT_NAME_UNIQUE.
 
-Fixpoint validate_tree (fuel : nat) (W : world) (names : list string) (c : comp) {struct c}
+Fixpoint validate_tree (q : bool) (fuel : nat) (W : world) (names : list string) (c : comp) {struct c}
   : list vrule * list string :=
   match c with
   | Comp i kids =>
@@ -595,16 +641,16 @@ Fixpoint validate_tree (fuel : nat) (W : world) (names : list string) (c : comp)
         (fix go (ks : list comp) (ns : list string) : list vrule * list string :=
            match ks with
            | [] => ([], ns)
-           | k :: r => let '(a, ns1) := validate_tree fuel W ns k in
+           | k :: r => let '(a, ns1) := validate_tree q fuel W ns k in
                        let '(b, ns2) := go r ns1 in (a ++ b, ns2)
            end) kids names1 in
-      (own ++ sub ++ validate_component fuel W 0 [] i, names2)
+      (own ++ sub ++ validate_component q fuel W 0 [] i, names2)
   end.
 
-Fixpoint validate_trees (fuel : nat) (W : world) (names : list string) (cs : list comp) : list vrule :=
+Fixpoint validate_trees (q : bool) (fuel : nat) (W : world) (names : list string) (cs : list comp) : list vrule :=
   match cs with
   | [] => []
-  | c :: r => let '(a, ns) := validate_tree fuel W names c in a ++ validate_trees fuel W ns r
+  | c :: r => let '(a, ns) := validate_tree q fuel W names c in a ++ validate_trees q fuel W ns r
   end.
 
 Definition comp_fuel (W : world) : nat := S (length W).
@@ -635,7 +681,7 @@ Definition child_of (a b : vloc) : bool := ploc_eqb (l_parent a) (PComp (l_comp 
 Definition reachable (a b : vloc) : bool := child_of a b || child_of b a || siblings a b.
 
 (** utilities.cpp: publicAndOrPrivateInterfaceTypeRequired.  [early]: the loop condition still carries
-    `&& !(pair.first && pair.second)` (true on the tree as it is now; fixes/C19-interface-early-exit.diff drops it). *)
+    `&& !(pair.first && pair.second)` (false on the tree as it is now: fixes/C19-interface-early-exit.diff dropped it). *)
 Fixpoint iface_required (early : bool) (L : list vloc) (me : vloc) (es : list eqv) (pub priv : bool) : bool * bool :=
   match es with
   | [] => (pub, priv)
@@ -725,62 +771,80 @@ Definition maths_ids (docs : list xml) : list string :=
 Definition opt_id (s : string) : list string := if str_is_empty s then [] else [s].
 
 (** the state threaded through buildComponentIdMap: ids collected, issues raised while collecting, reportedConnections *)
-Record idacc := mkIA { ia_ids : list string; ia_issues : list vrule; ia_conns : list string }.
+Record idacc := mkIA { ia_ids : list string; ia_issues : list vrule; ia_conns : list (string * string);
+                       ia_isrcs : list nat (* import sources already counted *) }.
+
+Definition pair_in (p : string * string) (l : list (string * string)) : bool :=
+  existsb (fun x => String.eqb (fst x) (fst p) && String.eqb (snd x) (snd p)) l.
+(** the "keep one of the two visits of a pair" test: concatenated strings, or (repaired) pairs *)
+Definition name_pair_ltb (pairs : bool) (a1 a2 b1 b2 : string) : bool :=
+  if pairs then str_ltb a1 b1 || (String.eqb a1 b1 && str_ltb a2 b2)
+  else str_ltb (String.append a1 a2) (String.append b1 b2).
+(** the key under which a connection is remembered *)
+Definition conn_key (pairs : bool) (c1 c2 : string) : string * string :=
+  let '(x, y) := if str_ltb c1 c2 then (c1, c2) else (c2, c1) in
+  if pairs then (x, y) else (String.append x y, "").
+(** the id of an import source: once per importing entity, or (repaired) once per ImportSource object *)
+Definition id_isrc (once : bool) (a : idacc) (s : isrc) : idacc :=
+  if str_is_empty (is_id s) then a
+  else if once && existsb (Nat.eqb (is_tag s)) (ia_isrcs a) then a
+  else mkIA (ia_ids a ++ [is_id s]) (ia_issues a) (ia_conns a) (ia_isrcs a ++ [is_tag s]).
 
 (** the per-equivalence part of buildComponentIdMap *)
-Definition id_equiv (L : list vloc) (c : cinfo) (v : var) (a : idacc) (e : eqv) : idacc :=
+Definition id_equiv (fx : fixes) (L : list vloc) (c : cinfo) (v : var) (a : idacc) (e : eqv) : idacc :=
   match lookup_var L (e_to e) with
   | None => a
   | Some o =>
-      let s1 := String.append (v_name v) (c_name c) in
-      let s2 := String.append (v_name (l_var o)) (l_cname o) in
-      let lt := str_ltb s1 s2 in
+      let lt := name_pair_ltb (fx_name_pairs fx) (v_name v) (c_name c) (v_name (l_var o)) (l_cname o) in
       let a1 := if lt && nonempty (e_map_id e)
                 then mkIA (ia_ids a ++ [e_map_id e])
-                          (ia_issues a ++ (if is_xml_name (e_map_id e) then [] else [V_XML_ID_ATTRIBUTE])) (ia_conns a)
+                          (ia_issues a ++ (if is_xml_name (e_map_id e) then [] else [V_XML_ID_ATTRIBUTE]))
+                          (ia_conns a) (ia_isrcs a)
                 else a in
-      let conn := if str_ltb (c_name c) (l_cname o) then String.append (c_name c) (l_cname o)
-                  else String.append (l_cname o) (c_name c) in
-      if lt && nonempty (e_conn_id e) && negb (str_in conn (ia_conns a1))
+      let conn := conn_key (fx_name_pairs fx) (c_name c) (l_cname o) in
+      if lt && nonempty (e_conn_id e) && negb (pair_in conn (ia_conns a1))
       then mkIA (ia_ids a1 ++ [e_conn_id e])
                 (ia_issues a1 ++ (if is_xml_name (e_conn_id e) then [] else [V_XML_ID_ATTRIBUTE]))
-                (ia_conns a1 ++ [conn])
+                (ia_conns a1 ++ [conn]) (ia_isrcs a1)
       else a1
   end.
 
-Definition id_add (a : idacc) (ids : list string) : idacc := mkIA (ia_ids a ++ ids) (ia_issues a) (ia_conns a).
+Definition id_add (a : idacc) (ids : list string) : idacc :=
+  mkIA (ia_ids a ++ ids) (ia_issues a) (ia_conns a) (ia_isrcs a).
 
-Definition id_comp_own (L : list vloc) (c : cinfo) (a : idacc) : idacc :=
+Definition id_comp_own (fx : fixes) (L : list vloc) (c : cinfo) (a : idacc) : idacc :=
   let a1 := id_add a (opt_id (c_id c)) in
-  let a2 := fold_left (fun a v => fold_left (id_equiv L c v) (v_eqs v) (id_add a (opt_id (v_id v)))) (c_vars c) a1 in
+  let a2 := fold_left (fun a v => fold_left (id_equiv fx L c v) (v_eqs v) (id_add a (opt_id (v_id v)))) (c_vars c) a1 in
   let a3 := fold_left (fun a r => id_add a (opt_id (r_id r) ++ opt_id (r_tv_id r) ++ maths_ids (r_tv r)
                                               ++ opt_id (r_rv_id r) ++ maths_ids (r_rv r))) (c_resets c) a2 in
   let a4 := id_add a3 (maths_ids (c_math c)) in
-  let a5 := id_add a4 (match c_imp c with Some (s, _) => opt_id (is_id s) | None => [] end) in
+  let a5 := match c_imp c with Some (s, _) => id_isrc (fx_isrc_once fx) a4 s | None => a4 end in
   if nonempty (c_encid c)
   then mkIA (ia_ids a5 ++ [c_encid c])
-            (ia_issues a5 ++ (if is_xml_name (c_encid c) then [] else [V_XML_ID_ATTRIBUTE])) (ia_conns a5)
+            (ia_issues a5 ++ (if is_xml_name (c_encid c) then [] else [V_XML_ID_ATTRIBUTE])) (ia_conns a5) (ia_isrcs a5)
   else a5.
 
-Fixpoint id_comp (L : list vloc) (a : idacc) (c : comp) {struct c} : idacc :=
+Fixpoint id_comp (fx : fixes) (L : list vloc) (a : idacc) (c : comp) {struct c} : idacc :=
   match c with
   | Comp i kids =>
       (fix go (ks : list comp) (a : idacc) : idacc :=
-         match ks with [] => a | k :: r => go r (id_comp L a k) end) kids (id_comp_own L i a)
+         match ks with [] => a | k :: r => go r (id_comp fx L a k) end) kids (id_comp_own fx L i a)
   end.
 
 (** buildModelIdMap *)
-Definition model_idacc (m : model) : idacc :=
+Definition model_idacc (fx : fixes) (m : model) : idacc :=
   let L := model_locs m in
-  let a0 := mkIA (opt_id (m_id m)) [] [] in
-  let a1 := fold_left (fun a u => id_add a (opt_id (u_id u) ++ flat_map (fun it => opt_id (ui_id it)) (u_items u)
-                                              ++ match u_imp u with Some (s, _) => opt_id (is_id s) | None => [] end))
+  let a0 := mkIA (opt_id (m_id m)) [] [] [] in
+  let a1 := fold_left (fun a u =>
+                         let b := id_add a (opt_id (u_id u) ++ flat_map (fun it => opt_id (ui_id it)) (u_items u)) in
+                         match u_imp u with Some (s, _) => id_isrc (fx_isrc_once fx) b s | None => b end)
                       (m_units m) a0 in
   let a2 := if nonempty (m_encid m)
             then mkIA (ia_ids a1 ++ [m_encid m])
                       (ia_issues a1 ++ (if is_xml_name (m_encid m) then [] else [V_XML_ID_ATTRIBUTE])) (ia_conns a1)
+                      (ia_isrcs a1)
             else a1 in
-  fold_left (id_comp L) (m_comps m) a2.
+  fold_left (id_comp fx L) (m_comps m) a2.
 
 (** the distinct strings that occur more than once *)
 Fixpoint dup_strings (l : list string) (seen reported : list string) : list string :=
@@ -792,8 +856,8 @@ Fixpoint dup_strings (l : list string) (seen reported : list string) : list stri
   end.
 
 (** checkUniqueIds: the issues raised while the map is built, then one issue per identifier counted more than once *)
-Definition check_unique_ids (m : model) : list vrule :=
-  let a := model_idacc m in
+Definition check_unique_ids (fx : fixes) (m : model) : list vrule :=
+  let a := model_idacc fx m in
   ia_issues a ++ map (fun _ => V_XML_ID_ATTRIBUTE) (dup_strings (ia_ids a) [] []).
 
 (* ================================================================================================ reset orders *)
@@ -811,19 +875,41 @@ Fixpoint first_key (es : list eqv) (m : omap) : option nat :=
   | [] => None
   | e :: r => if omap_mem (e_to e) m then Some (e_to e) else first_key r m
   end.
-(** addResetOrderMapItem: [eqs] = the equivalence list of the variable (a variable outside the model: none known) *)
-Definition omap_add (L : list vloc) (t : nat) (o : Z) (m : omap) : omap :=
-  if omap_mem t m then omap_push t o m
-  else match first_key (match lookup_var L t with Some l => v_eqs (l_var l) | None => [] end) m with
+Definition eqs_of (L : list vloc) (t : nat) : list eqv :=
+  match lookup_var L t with Some l => v_eqs (l_var l) | None => [] end.
+(** utilities.cpp: equivalentVariables / recursiveEquivalentVariables — the connected variable set in the order the
+    depth-first walk appends it ([acc] starts as [t]); the walk adds a new variable at every call, so [length L]
+    levels suffice *)
+Fixpoint eqv_closure (fuel : nat) (L : list vloc) (t : nat) (acc : list nat) : list nat :=
+  match fuel with
+  | O => acc
+  | S f => fold_left (fun acc e => if existsb (Nat.eqb (e_to e)) acc then acc
+                                   else eqv_closure f L (e_to e) (acc ++ [e_to e])) (eqs_of L t) acc
+  end.
+Definition connected_set (L : list vloc) (t : nat) : list nat := eqv_closure (S (length L)) L t [t].
+Fixpoint first_key_in (ts : list nat) (m : omap) : option nat :=
+  match ts with
+  | [] => None
+  | t :: r => if omap_mem t m then Some t else first_key_in r m
+  end.
+(** addResetOrderMapItem (a variable outside the model: no equivalences known) *)
+Definition omap_add (whole_set : bool) (L : list vloc) (t : nat) (o : Z) (m : omap) : omap :=
+  if whole_set then
+    match first_key_in (connected_set L t) m with
+    | Some k => omap_push k o m
+    | None => m ++ [(t, [o])]
+    end
+  else if omap_mem t m then omap_push t o m
+  else match first_key (eqs_of L t) m with
        | Some k => omap_push k o m
        | None => m ++ [(t, [o])]
        end.
 (** traverseComponentTree / buildModelResetOrderMap: a component's resets, then its children *)
-Definition omap_resets (L : list vloc) (rs : list reset) (m : omap) : omap :=
-  fold_left (fun m r => match r_var r, r_order r with Some t, Some o => omap_add L t o m | _, _ => m end) rs m.
-Definition build_omap (m : model) : omap :=
+Definition omap_resets (ws : bool) (L : list vloc) (rs : list reset) (m : omap) : omap :=
+  fold_left (fun m r => match r_var r, r_order r with Some t, Some o => omap_add ws L t o m | _, _ => m end) rs m.
+Definition build_omap (ws : bool) (m : model) : omap :=
   let L := model_locs m in
-  fold_left (fun acc c => omap_resets L (c_resets (c_info c)) acc) (model_comps m) [].
+  fold_left (fun acc c => omap_resets ws L (c_resets (c_info c)) acc) (model_comps m) [].
 
 Fixpoint has_dup_z (l : list Z) : bool :=
   match l with
@@ -831,12 +917,13 @@ Fixpoint has_dup_z (l : list Z) : bool :=
   | x :: r => existsb (Z.eqb x) r || has_dup_z r
   end.
 (** checkUniqueResetOrders *)
-Definition check_unique_reset_orders (m : model) : list vrule :=
-  flat_map (fun kv => if has_dup_z (snd kv) then [V_RESET_ORDER_UNIQUE] else []) (build_omap m).
+Definition check_unique_reset_orders (ws : bool) (m : model) : list vrule :=
+  flat_map (fun kv => if has_dup_z (snd kv) then [V_RESET_ORDER_UNIQUE] else []) (build_omap ws m).
 
 (* ================================================================================================ validateModel *)
 
 Section Validate.
+  Variable fx : fixes.
   Variable ueq : world -> string -> string -> option bool.
   Variable early : bool.
 
@@ -845,11 +932,11 @@ Section Validate.
     let m := model_at W 0 in
     plains (if is_ident (m_name m) then [] else [V_MODEL_NAME_VALUE])
     ++ plains (if is_xml_name (m_id m) then [] else [V_XML_ID_ATTRIBUTE])
-    ++ plains (validate_trees (comp_fuel W) W [] (m_comps m))
+    ++ plains (validate_trees (fx_math_qual fx) (comp_fuel W) W [] (m_comps m))
     ++ flat_map (fun u => validate_units (units_fuel W) W 0 true [] u ORIGIN) (m_units m)
     ++ validate_connections ueq early W
-    ++ plains (check_unique_ids m)
-    ++ plains (check_unique_reset_orders m).
+    ++ plains (check_unique_ids fx m)
+    ++ plains (check_unique_reset_orders (fx_reset_set fx) m).
 
   (** Validator::validateModel(model 0 of the world): the issues, each (level, reference rule) *)
   Definition validate (W : world) : list (level * vrule) :=
@@ -875,7 +962,10 @@ Definition ueq_c08 (W : world) (n1 n2 : string) : option bool :=
   | _ => None
   end.
 
-(** the tree as it is now: the early exit of publicAndOrPrivateInterfaceTypeRequired is still there *)
-Definition current_early : bool := true.
+(** the tree as it is now: the early exit of publicAndOrPrivateInterfaceTypeRequired is gone (commit c0e1a6b, found by C19) *)
+Definition current_early : bool := false.
 
-Definition validate_now (W : world) : list (level * vrule) := validate ueq_c08 current_early W.
+(** the state of the tree the correspondence run compares with: every repair of C04 applied *)
+Definition current_fixes : fixes := all_fixed.
+
+Definition validate_now (W : world) : list (level * vrule) := validate current_fixes ueq_c08 current_early W.
